@@ -196,12 +196,12 @@ func (w *c04World) round(kind byte) bool {
 		now := time.Now()
 		by := servedBy(rec)
 		// a hung exchange at the subject: no answer, and the subject's journal shows the request arrived there
-		hung := hang && rec.Code == 502 && by == "" && w.S.Count() > seen
+		hung := hang && rec.Code >= 500 && by == "" && w.S.Count() > seen
 		if vh.IsSim && vh.Took(now.Sub(t0)) && !hung {
 			vh.FlagAnomaly()
 		}
 		w.o.Obs("requests", 1)
-		bySubject := by == w.S.Name || (kind == 'u' && rec.Code == 502) || hung
+		bySubject := by == w.S.Name || (kind == 'u' && rec.Code >= 500 && by == "") || hung
 		if !bySubject {
 			if rec.Code != 200 {
 				w.o.Viol(w.sig("request-failed"), fmt.Sprintf("%s: request got %d %q while two backends are healthy", w.ctx(), rec.Code, trunc(rec.Body.String(), 60)), nil)
